@@ -1246,6 +1246,23 @@ Corollary check_hist_model O p ops : wf_pool p = true -> hist_okb O p ops = true
   check_hist {| h_or := O; h_pool := p; h_steps := model_steps O p ops |} = None.
 Proof. intros Hp Hok. unfold check_hist. cbn [h_or h_pool h_steps]. now apply check_steps_model. Qed.
 
+(* the evaluated form (failures, which reports every failing step and not only the first) accepts the model too,
+   and is empty exactly when the first-failure form is *)
+Lemma check_steps_all_nil O ss : forall p k, check_steps_all O p ss k = [] <-> check_steps O p ss k = None.
+Proof.
+  induction ss as [|s ss IH]; intros p k; cbn [check_steps_all check_steps]; [tauto|].
+  destruct (check_step O p s) as [|c cs]; [apply IH|]. split; discriminate.
+Qed.
+Theorem check_steps_all_model O ops p k : wf_pool p = true -> hist_okb O p ops = true ->
+  check_steps_all O p (model_steps O p ops) k = [].
+Proof. intros Hp Hok. apply check_steps_all_nil. now apply check_steps_model. Qed.
+Corollary failures_model O p ops k : wf_pool p = true -> hist_okb O p ops = true ->
+  failures [{| h_or := O; h_pool := p; h_steps := model_steps O p ops |}] k = [].
+Proof.
+  intros Hp Hok. cbn [failures]. unfold check_hist_all. cbn [h_or h_pool h_steps].
+  now rewrite (check_steps_all_model O ops p 0 Hp Hok).
+Qed.
+
 (* op_target (Corr.v) names exactly the position that edit (Step.v) replaces, and every
    other operation leaves the pool alone or appends one frame *)
 Theorem op_target_is_edit O p o i : op_target o = Some i -> exists r, step O p o = edit p i r.
